@@ -40,6 +40,8 @@ func main() {
 		err = genGoFn(os.Args[1], os.Args[2], os.Args[3])
 	case "pooldeps":
 		err = genPoolDeps(os.Args[2], os.Args[3])
+	case "lockflow":
+		err = genLockFlow(os.Args[2], os.Args[3])
 	default:
 		err = fmt.Errorf("unknown translator %q", os.Args[1])
 	}
